@@ -1,5 +1,6 @@
 import Lean.Data.Json
 import LarkVerif.Repeat
+import LarkVerif.Props.C06
 /-! Line-protocol driver: one JSON request per stdin line (`{"op": ...}`), one JSON answer per stdout line.
     Runs the *executable definitions the theorems are about*.  Not part of the proof library. -/
 open Lean
@@ -22,6 +23,21 @@ partial def rtreeJ : RTree → Json
   | .naive mn mx => Json.mkObj [("naive", natArr [mn, mx])]
   | .cat l r => Json.mkObj [("cat", Json.arr #[rtreeJ l, rtreeJ r])]
 
+def boolOf (j : Json) : Except String Bool := do
+  match j with
+  | Json.bool b => pure b
+  | _ => throw "bool expected"
+
+open LCProto in
+def lcJ (lc : LineCounter) : Json := natArr [lc.charPos, lc.line, lc.column, lc.lineStartPos]
+open LCProto in
+def stampJ (s : Stamp) : Json := natArr [s.startPos, s.line, s.column, s.endPos, s.endLine, s.endColumn]
+
+def spanOf (j : Json) : Except String (Nat × Nat) := do
+  match (← j.getArr?).toList with
+  | [a, b] => pure (← a.getNat?, ← b.getNat?)
+  | _ => throw "span"
+
 def handle (j : Json) : Except String Json := do
   let op ← getStr j "op"
   match op with
@@ -31,6 +47,36 @@ def handle (j : Json) : Except String Json := do
   | "repeat_tree" =>
     let mn ← getNat j "mn"; let mx ← getNat j "mx"; let bt ← getNat j "break"; let ft ← getNat j "fac"
     pure (rtreeJ (Proto.genTree bt ft mn mx))
+  | "lc_feed" =>
+    -- {"feeds": [[token, flag], ...]}: the states of a fresh LineCounter after each feed
+    let feeds ← getArr j "feeds"
+    let mut lc := LCProto.LineCounter.init
+    let mut out : Array Json := #[]
+    for f in feeds do
+      match (← f.getArr?).toList with
+      | [t, b] =>
+        lc := lc.feed (← t.getStr?).toList (← boolOf b)
+        out := out.push (lcJ lc)
+      | _ => throw "feed"
+    pure (Json.arr out)
+  | "lc_advance" =>
+    -- {"text", "steps": [pos, ...]}: advance_to over increasing positions
+    let text := (← getStr j "text").toList
+    let steps ← getArr j "steps"
+    let mut lc := LCProto.LineCounter.init
+    let mut out : Array Json := #[]
+    for p in steps do
+      lc := lc.advanceTo text (← p.getNat?)
+      out := out.push (lcJ lc)
+    pure (Json.arr out)
+  | "stamps" =>
+    let text := (← getStr j "text").toList
+    let spans ← (← getArr j "spans").mapM spanOf
+    pure (Json.arr (spans.map (fun se => stampJ (Props.C06.stampAt text se.1 se.2 true))).toArray)
+  | "dyn_stamps" =>
+    let text := (← getStr j "text").toList
+    let spans ← (← getArr j "spans").mapM spanOf
+    pure (Json.arr (spans.map (fun se => stampJ (LCProto.dynStamp text se.1 se.2))).toArray)
   | _ => throw s!"unknown op {op}"
 
 partial def loop (h : IO.FS.Stream) (out : IO.FS.Stream) : IO Unit := do
